@@ -16,6 +16,10 @@ class Writer(Protocol):
         """Writes the footer."""
 
 
+# A record whose 3-byte offset is 0x454F46 reads as the "EOF" marker: patchers stop there.
+IPS_EOF_OFFSET = 0x454F46
+
+
 class IPSWriter(Writer):
     def __init__(self, file: BinaryIO, copier_header: bool = False) -> None:
         self.file = file
@@ -28,13 +32,19 @@ class IPSWriter(Writer):
     def write_block_header(self, block: bytes, block_address: int) -> None:
         if self._copier_header:
             block_address += 0x200
+        if block_address == IPS_EOF_OFFSET:
+            raise ValueError(f"IPS cannot represent a record starting at offset 0x{IPS_EOF_OFFSET:06X} (EOF marker).")
         self.file.write(struct.pack(">BH", block_address >> 16, block_address & 0xFFFF))
         self.file.write(struct.pack(">H", len(block)))
 
     def write_block(self, block: bytes, block_address: int) -> None:
         k = 0
+        delta = 0x200 if self._copier_header else 0
         while block[k:]:
             slice_size = min(0xFFFF, len(block) - k)
+            if slice_size < len(block) - k and block_address + delta + slice_size == IPS_EOF_OFFSET:
+                # never let the next record of a split block start on the EOF marker offset.
+                slice_size -= 1
             block_slice = block[k : k + slice_size]
 
             self.write_block_header(block_slice, block_address)
